@@ -359,6 +359,12 @@ pub fn install_gc_observer() {
     thread_local! { static START: RefCell<Option<(Vec<usize>, usize)>> = const { RefCell::new(None) }; }
     verif::set_gc_observer(Some(Box::new(|ev| match ev {
         verif::GcEvent::RunStart { roots, managed } => {
+            if managed.is_empty() {
+                // nothing is managed: the cycle is a no-op (and the collector returns at once)
+                GCSTATS.with(|g| g.borrow_mut().cycles += 1);
+                START.with(|s| *s.borrow_mut() = None);
+                return;
+            }
             let reach = reachable_set(roots);
             let managed_reach = managed
                 .iter()
